@@ -123,7 +123,9 @@ def type_lattice(ctx):
             reqs.append(" ".join(["C", m, me] + [f"s=a{i}" for i in range(len(a))]))
             real.append(real_type("C", m, v, [0.3 + 0.1 * i for i in range(len(a))]))
         others = [(t, f, s) for t in TAGS for f in "gm" for s in sigs]
-        for tag2, fl2, sig2 in r.sample(others, 10 if ctx.tier == "quick" else 40):
+        same = [o for o in others if len(o[2]) == len(sig)]        # same dimension: where add/subtract/dot/equal/cross are defined
+        k_same, k_any = (10, 3) if ctx.tier == "quick" else (40, 12)
+        for tag2, fl2, sig2 in r.sample(same, min(k_same, len(same))) + r.sample(others, k_any):
             w = mk(tag2, fl2, sig2, 2)
             ot = tag2 + symobj.vtoken(fl2, sig2, 2)
             for m in BINARY:
